@@ -27,6 +27,14 @@ NA = {
 }
 
 CHECKS = {
+    "C20": {
+        "engine": "simio",
+        "technique": "deterministic fault injection on the input stream: enumerated truncation points + seeded k<=4 byte substitute/insert/delete plans over the real database files; exception-type oracle, sys.monitoring work budget, memory limit",
+        "category": "fault_enumeration",
+        "text": "Every fault plan (truncate at offset t, or up to four byte edits) is applied to one of the two real .nzd files and fed through a fault-injecting stream to from_stream, id listing, provider construction and zone fetches (the lazily parsed zone bodies that the damage touches, their aliases, new ids, a sample of others). Each operation must return or raise the documented invalid-data error; 'promptly' is a deterministic count of function entries and loop iterations bounded at 20x the intact-file cost, memory is bounded by RLIMIT_AS and a tracemalloc peak bound. The thorough tier enumerates every prefix of both files (259,704 truncations) exhaustively and samples ~600k corruption plans; the quick tier covers all structural boundaries and ~3.4k seeded corruptions.",
+        "note": "Trusted: the stream has BufferedIOBase semantics (no OSError, no short read before EOF); C-level loops are only covered by a wall watchdog; the k<=4 corruption space (~1e20 plans) is sampled, stratified by structural region, not enumerated.",
+        "ref": "DESIGN.md section 4 (C20), 3.3",
+    },
     "C19": {
         "engine": "simsched+simclock",
         "technique": "deterministic simulation: seeded baton-passing thread scheduler + SimLock + virtual OS clock; model-based oracle (step-by-step and linearizability), exact deadlock detection",
